@@ -3,7 +3,7 @@
 Exploration over a product grid (no sampling): ~4000 whole-second anchors x
 edge microsecond values; all 10^6 microsecond values at several anchors (one
 per float binade of the seconds value); every second of three days; every
-midnight 1970-2100.  Integer reference (datetime + timedelta, no floats)."""
+midnight 1900-2100.  Integer reference (datetime + timedelta, no floats)."""
 from datetime import datetime, timedelta
 
 from ..findings import input_key
@@ -13,6 +13,7 @@ LEVEL = "exploration"
 HANDLER = "mc.checks.c16:handle"
 TIMEOUT = 900.0
 EPOCH = datetime(1970, 1, 1)
+MINS = int((datetime(1900, 1, 1) - EPOCH).total_seconds())
 MAXS = int((datetime(2100, 12, 31, 23, 59, 59) - EPOCH).total_seconds())
 
 
@@ -23,7 +24,9 @@ def ref_string(us):
 
 def anchors():
     out = {0}
-    for y in range(1970, 2101):
+    # wave 14: instants before the epoch (negative nanoseconds) belong to the
+    # domain as well: 1900 .. 2100
+    for y in range(1900, 2101):
         for m in range(1, 13):
             out.add(int((datetime(y, m, 1) - EPOCH).total_seconds()))
         out.add(int((datetime(y, 2, 28, 23, 59, 59) - EPOCH).total_seconds()))
@@ -36,10 +39,12 @@ def anchors():
     for k in range(0, 33):
         for d in (-1, 0, 1):
             out.add(2 ** k + d)
+            out.add(-(2 ** k) + d)
     for k in range(0, 10):
         for d in (-1, 0, 1):
             out.add(10 ** k + d)
-    return sorted(s for s in out if 0 <= s <= MAXS)
+            out.add(-(10 ** k) + d)
+    return sorted(s for s in out if MINS <= s <= MAXS)
 
 
 M_EDGE = sorted({0, 1, 2, 9, 10, 11, 99, 100, 101, 999, 1000, 1001, 9999,
@@ -206,17 +211,21 @@ def build(tier, ctx):
     for i in range(0, len(an), 100):
         tasks.append({"kind": "grid", "secs": an[i:i + 100]})
     nb = 4 if tier == "quick" else 16
-    for sec in binade_anchors(nb):
+    # all 10^6 microseconds also at one second before the epoch (1969) and at
+    # one early in the century (negative nanoseconds)
+    for sec in binade_anchors(nb) + [-1, -86400 * 365 * 2 - 12345,
+                                     MINS + 86399]:
         for lo in range(0, 1_000_000, 125_000):
             tasks.append({"kind": "allus", "sec": sec, "lo": lo,
                           "hi": lo + 125_000})
     days = [int((datetime(y, m, d) - EPOCH).total_seconds())
-            for y, m, d in ((1970, 1, 1), (2024, 2, 29), (2100, 12, 31))]
+            for y, m, d in ((1970, 1, 1), (2024, 2, 29), (2100, 12, 31),
+                            (1969, 12, 31), (1900, 1, 1))]
     for d0 in days:
         for lo in range(d0, d0 + 86400, 21600):
             tasks.append({"kind": "seconds", "lo": lo, "hi": lo + 21600})
     mids = [int((datetime(y, 1, 1) - EPOCH).total_seconds()) + 86400 * k
-            for y in range(1970, 2101) for k in (0, 58, 59, 60, 180, 364)]
+            for y in range(1900, 2101) for k in (0, 58, 59, 60, 180, 364)]
     for i in range(0, len(mids), 200):
         tasks.append({"kind": "grid", "secs": mids[i:i + 200]})
     # the same conversions with the process in other time zones: seasonal
@@ -252,7 +261,7 @@ def collect(tier, tasks, results, ctx):
     cov = {
         "evaluations": n, "distinct_nontrivial": distinct,
         "rule": "product grid: whole-second anchors (month starts, leap days, "
-                "year ends, 2^k, 10^k +-1; 1970..2100) x edge microsecond "
+                "year ends, +-2^k, +-10^k +-1; 1900..2100) x edge microsecond "
                 "values x sub-microsecond remainders; all 10^6 microsecond "
                 "values at several anchors (one per float binade of the "
                 "seconds value); every second of three days; "
